@@ -137,6 +137,23 @@ def check(run):
             run.findings.append(Finding("C08.py.native_filter_sequence", f"cse={cse}", f"{'linear' if linear else 'generic'} filter{' with |v| terms on symbols without assumptions' if magnitude else ''} compiled with CSE {'on' if cse else 'off'}: {problems[0]}", {"language": "python", "inputs": {"shape": [3, 1, 2], "seed": run.seed, "filter_sequence": True, "cse": cse, "linear": linear, "magnitude": magnitude}, "model_definition": fsc.describe(), "oracle_verdict": problems[:4]}, True))
             break
     run.bounded.append({"what": "the compiled FILTER with CSE on and with CSE off: Jacobians, predictions (also chained) and sensor updates of one stateful sequence, each against the exact oracle", "bound": "3 models (linear, generic, generic with |v| terms whose derivative must not be handed to CSE unevaluated) x 2 CSE settings", "failures": ff, "counted_as_proved": False})
+    # function zoo: one model per elementary-function form (|v|, Piecewise, Max, atan2, sec, 1/a**3, ...), CSE on and off, against the exact oracle
+    from replay import zoo
+
+    zf = 0
+    names = list(zoo.FORMS) if run.tier == "thorough" else list(zoo.QUICK)
+    cases = [(nm, assume) for nm in names for assume in ((False, True) if run.tier == "thorough" else (False,))]
+    refused = 0
+    for nm, assume in cases:
+        run.native_runs += 1
+        problems, summary, zsc = zoo.run_form(nm, assume, cxx=run.tier == "thorough", seed=3)
+        refused += sum(1 for v in summary.values() if str(v).startswith("refused"))
+        if problems:
+            zf += 1
+            run.findings.append(Finding("C08.py.native_function_zoo", nm, problems[0], {"language": "python", "inputs": {"zoo_form": nm, "assumptions": assume, "cxx": run.tier == "thorough", "seed": 3}, "model_definition": zsc.describe(), "oracle_verdict": problems[:4]}, True))
+            if zf >= 3:
+                break
+    run.bounded.append({"what": "function zoo: one filter per elementary-function form (|v|, sqrt|v|, Piecewise, Max/Min, atan2, sec/cot/csc, sinc, erf, fractional and negative powers, ...) compiled with CSE on and off: state update and all three Jacobians against the exact real-valued oracle" + ("; generated C++ compiled and compared with the python filter" if run.tier == "thorough" else ""), "bound": f"{len(cases)} models x 2 CSE settings, one point each; {refused} back-end/setting combinations refused the form loudly (not a failure)", "failures": zf, "counted_as_proved": False})
     run.bounded.append({"what": "compiled python model with nested shared sub-expressions: CSE on vs off vs exact sympy, four calls on the same compiled object (a point, two nearby points, the first point again)", "bound": f"{len(shapes)} programs", "failures": fails, "counted_as_proved": False})
     try:
         from checks import cxx_generated
@@ -157,6 +174,12 @@ def cxx_ssa_native(shape, seed, container="set"):
 
 def replay_file(payload):
     inp = payload["inputs"]
+    if inp.get("zoo_form"):
+        from replay import zoo
+
+        problems, summary, _ = zoo.run_form(inp["zoo_form"], inp.get("assumptions", False), cxx=inp.get("cxx", False), seed=inp.get("seed", 3))
+        print("replay C08 (function zoo):", problems[:3] or f"as specified {summary}")
+        return not problems
     if inp.get("filter_sequence"):
         from replay import kalman
 
